@@ -66,6 +66,7 @@ class St:
         self.opaque = []                # branch conditions without a normal form (text)
         self.events = []                # (kind, ...) in order
         self.trace = []                 # block ids
+        self.callvals = {}              # call node id -> value returned by an inlined helper
 
     def copy(self):
         s = St(self.fields, self.bufsize)
@@ -75,6 +76,7 @@ class St:
         s.opaque = list(self.opaque)
         s.events = list(self.events)
         s.trace = list(self.trace)
+        s.callvals = dict(self.callvals)
         return s
 
 
@@ -90,6 +92,8 @@ class BufEngine:
         self.f = f
         self.depth = depth
         self.params = {p['id']: p for p in f.get('params', [])}
+        self.buf_obj_alias = set()      # parameters bound to the buffer array itself (helper called with *buffer)
+        self.buf_sp_alias = set()       # parameters bound to the shared_ptr holding it
         rec = tu.records.get(f.get('recid'))
         self.rec = rec
         self.buf_field = None
@@ -108,8 +112,12 @@ class BufEngine:
         if self.buf_field is not None and self.tu.member_of_this(e) == self.buf_field:
             return True
         if e.get('kind') == 'DeclRefExpr':
-            p = self.params.get(e.get('referencedDecl', {}).get('id'))
-            if p is not None and p['ct'].replace('const ', '').startswith('std::shared_ptr<' + UTIL):
+            did = e.get('referencedDecl', {}).get('id')
+            if did in self.buf_sp_alias:
+                return True
+            p = self.params.get(did)
+            if p is not None and p['ct'].replace('const ', '').startswith('std::shared_ptr<' + UTIL) and \
+                    self.depth == 0:
                 return True
         return False
 
@@ -128,6 +136,8 @@ class BufEngine:
         if e is None or d > 6:
             return False
         k = e.get('kind')
+        if k == 'DeclRefExpr' and e.get('referencedDecl', {}).get('id') in self.buf_obj_alias:
+            return True
         if k == 'UnaryOperator' and e.get('opcode') == '*':
             return self.is_buf_obj(tu.kids(e)[0], d + 1)
         if k == 'CXXOperatorCallExpr':
@@ -160,6 +170,9 @@ class BufEngine:
             return None
 
         def call(n):
+            if n.get('id') in st.callvals:
+                v = st.callvals[n['id']]
+                return v if isinstance(v, Poly) else None
             v = self.call_value(n, st)
             return v if isinstance(v, Poly) else None
 
@@ -203,6 +216,8 @@ class BufEngine:
             return None
         k = e.get('kind')
         ct = tu.sd(e).get('ct', '')
+        if e.get('id') in st.callvals:
+            return st.callvals[e['id']]
         if k == 'DeclRefExpr':
             did = e.get('referencedDecl', {}).get('id')
             if did in st.vars:
@@ -400,6 +415,59 @@ class BufEngine:
             return
         raise Undecided('view construction `%s` is not understood' % tu.show(n))
 
+    # ---- helpers: private members, file-local and detail:: functions are propagated through
+    def inlinable(self, n):
+        tu = self.tu
+        if n.get('kind') not in ('CallExpr', 'CXXMemberCallExpr') or self.depth >= 4:
+            return None
+        callee = tu.callee_fn(n)
+        if callee is None or tu.cfg(callee) is None or callee['id'] == self.f['id']:
+            return None
+        sd, obj, args = tu.call_parts(n)
+        if n['kind'] == 'CXXMemberCallExpr':
+            if obj is not None and tu.is_this(obj) and callee.get('rec') == self.f.get('rec') and self.f.get('rec'):
+                return callee
+            return None
+        if callee['q'].startswith(NET) and not callee.get('rec') and 'operator' not in callee['q'].split('::')[-1]:
+            return callee
+        return None
+
+    def inline_call(self, n, st, callee):
+        """-> [('cont' | 'throw', state)] : the states after the call, one per path through the callee"""
+        tu = self.tu
+        sd, obj, args = tu.call_parts(n)
+        sub = BufEngine(tu, callee, self.depth + 1)
+        sub.buf_field = self.buf_field if callee.get('rec') == self.f.get('rec') else None
+        s0 = st.copy()
+        s0.vars = {}
+        s0.trace = []
+        for p, a in zip(callee.get('params', []), args):
+            if self.is_buf_obj(a):
+                sub.buf_obj_alias.add(p['id'])
+                continue
+            if self.is_buf_sp(a):
+                sub.buf_sp_alias.add(p['id'])
+                continue
+            v = self.val(a, st)
+            if v is None and (p['ct'].rstrip().endswith('&') and not p['ct'].startswith('const ')):
+                raise Undecided('`%s` passes `%s` by reference to a helper' % (tu.show(n), tu.show(a)))
+            s0.vars[p['id']] = v
+        n_ev = len(st.events)
+        outs = []
+        for kind, s2, rv in sub.run(s0):
+            r = st.copy()
+            r.fields, r.bufsize, r.bufgen = dict(s2.fields), s2.bufsize, s2.bufgen
+            r.cons, r.opaque = list(s2.cons), list(s2.opaque)
+            r.events = [e for i, e in enumerate(s2.events) if i < n_ev or e[0] not in ('return', 'retptr')]
+            r.callvals = dict(st.callvals)
+            r.callvals.update({k: v for k, v in s2.callvals.items()})
+            if kind == 'throw':
+                outs.append(('throw', r))
+            else:
+                r.callvals[n['id']] = rv
+                outs.append(('cont', r))
+        return outs
+
     # ---- path enumeration
     def run(self, st0):
         """-> [(kind, state, value)] for every path; kind in return / throw / end"""
@@ -410,17 +478,22 @@ class BufEngine:
         if g.back_edges():
             raise Undecided('function contains a loop')
         outs = []
-        stack = [(g.entry, st0)]
+        stack = [(g.entry, 0, st0)]
         steps = 0
         while stack:
-            bid, st = stack.pop()
+            item = stack.pop()
+            bid, start, st = item if len(item) == 3 else (item[0], 0, item[1])
             steps += 1
             if steps > 4000:
                 raise Undecided('too many paths')
             blk = g.blocks[bid]
-            st.trace.append(bid)
+            if start == 0:
+                st.trace.append(bid)
             res = None
-            for e in blk.el:
+            forked = False
+            for ei, e in enumerate(blk.el):
+                if ei < start:
+                    continue
                 if e[0] == 'I':
                     init = tu.node(e[1])
                     if init is not None and e[3] not in ('<base>', self.buf_field) and e[2] is not None:
@@ -452,9 +525,20 @@ class BufEngine:
                 n = tu.node(e[1])
                 if n is None:
                     continue
+                callee = self.inlinable(n)
+                if callee is not None:
+                    for kind2, s2 in self.inline_call(n, st, callee):
+                        if kind2 == 'throw':
+                            outs.append(('throw', s2, None))
+                        else:
+                            stack.append((bid, ei + 1, s2))
+                    forked = True
+                    break
                 res = self.step(n, st)
                 if res:
                     break
+            if forked:
+                continue
             if res == 'throw':
                 outs.append(('throw', st, None))
                 continue
@@ -486,7 +570,7 @@ class BufEngine:
                     if s == g.exit:
                         outs.append(('end', s2, None))
                     else:
-                        stack.append((s, s2))
+                        stack.append((s, 0, s2))
                 continue
             live = [s for s in succ if s is not None]
             if len(live) != 1:
@@ -494,7 +578,7 @@ class BufEngine:
             if live[0] == g.exit:
                 outs.append(('end', st, None))
             else:
-                stack.append((live[0], st))
+                stack.append((live[0], 0, st))
         return outs
 
 
@@ -1136,7 +1220,44 @@ class SigBuilder:
                     return p
         return None
 
-    def length(self, e, env):
+    def helper_callee(self, n, env):
+        """function entry if n calls a helper (detail:: / file-local function of the networking namespace with a body)
+        that receives the stream"""
+        tu = self.tu
+        if n.get('kind') != 'CallExpr':
+            return None
+        callee = tu.callee_fn(n)
+        if callee is None or tu.body(callee) is None or not callee['q'].startswith(NET) or callee.get('rec'):
+            return None
+        if not any(self.is_stream(a, env) for a in tu.call_parts(n)[2]):
+            return None
+        return callee
+
+    def inline_helper(self, n, env, callee):
+        """(items, returned value Poly | 'stream' | None) of a helper call, parameters mapped to the arguments"""
+        tu = self.tu
+        if env.get('depth', 0) > 4:
+            raise Undecided('helper nesting too deep')
+        args = tu.call_parts(n)[2]
+        env2 = {'stream': None, 'rh': None, 'rh_ct': '', 'dir': env['dir'], 'vars': {}, 'elems': {}, 'ptype': env['ptype'],
+                'fn': callee, 'helper': True, 'retval': None, 'depth': env.get('depth', 0) + 1, 'locals': {}}
+        pre = []
+        for p, a in zip(callee.get('params', []), args):
+            if self.is_stream(a, env):
+                env2['stream'] = p['id']
+                continue
+            path = self.path_of(a, env)
+            if path is not None and not (path[0] == 'local' and isinstance(env['vars'].get(path[1]), Poly)):
+                env2['elems'][p['id']] = path
+                continue
+            v = self.length(a, env, pre)
+            if v is None:
+                raise Undecided('argument `%s` of helper %s has no normal form' % (tu.show(a), callee['q']))
+            env2['vars'][p['id']] = v
+        items = pre + self.block(tu.body(callee), env2)
+        return items, env2['retval']
+
+    def length(self, e, env, sink=None):
         tu = self.tu
 
         def var(n, did):
@@ -1155,6 +1276,13 @@ class SigBuilder:
                 p = self.path_of(args[0], env)
                 if p is not None and pointee(env['ptype'].get(p, '')) == 'char':
                     return Poly.atom(('size', p))
+            callee = self.helper_callee(n, env)
+            if callee is not None:
+                if sink is None:
+                    raise Undecided('helper call `%s` in a position where its stream effects cannot be ordered' % tu.show(n))
+                items, rv = self.inline_helper(n, env, callee)
+                sink.extend(items)
+                return rv if isinstance(rv, Poly) else None
             return None
 
         return Evaluator(tu, var, None, call).ev(e)
@@ -1216,7 +1344,7 @@ class SigBuilder:
                 init = tu.kids(vd)
                 env.setdefault('locals', {})[vd['id']] = vd.get('name')
                 if init:
-                    v = self.length(init[0], env)
+                    v = self.length(init[0], env, items)
                     if v is None:
                         raise Undecided('initialiser of `%s` has no normal form' % vd.get('name'))
                     env['vars'][vd['id']] = v
@@ -1228,10 +1356,25 @@ class SigBuilder:
             e = tu.strip(ks[0]) if ks else None
             if e is not None and self.is_stream_op(e):
                 items += self.expr(e, env)
+                env['retval'] = 'stream'
                 return items
-            if e is None or e.get('kind') != 'DeclRefExpr' or e.get('referencedDecl', {}).get('id') != env['stream']:
-                raise Undecided('operator does not return its stream argument')
-            return items
+            if e is not None and e.get('kind') == 'CallExpr' and self.helper_callee(e, env) is not None:
+                sub, rv = self.inline_helper(e, env, self.helper_callee(e, env))
+                items += sub
+                if rv != 'stream' and not env.get('helper'):
+                    raise Undecided('operator does not return its stream argument')
+                env['retval'] = rv
+                return items
+            if e is not None and e.get('kind') == 'DeclRefExpr' and e.get('referencedDecl', {}).get('id') == env['stream']:
+                env['retval'] = 'stream'
+                return items
+            if env.get('helper') and e is not None:
+                v = self.length(ks[0], env, items)
+                if v is None:
+                    raise Undecided('value returned by helper %s has no normal form' % env['fn']['q'])
+                env['retval'] = v
+                return items
+            raise Undecided('operator does not return its stream argument')
         if k == 'CXXForRangeStmt':
             inner = n.get('inner', [])
             decls = [x for x in inner if isinstance(x, dict) and x.get('kind') == 'DeclStmt']
@@ -1315,6 +1458,8 @@ class SigBuilder:
             env2['index'] = (iv['id'], base)
             sub = self.block(body, env2)
             return [('REPEAT', count, base, sub, tu.loc(n))]
+        if k == 'CallExpr' and self.helper_callee(n, env) is not None:
+            return self.inline_helper(n, env, self.helper_callee(n, env))[0]
         if k in ('CXXOperatorCallExpr', 'CXXMemberCallExpr', 'ExprWithCleanups'):
             return self.expr(tu.strip(n), env)
         if k in ('CompoundAssignOperator', 'BinaryOperator'):
@@ -1407,10 +1552,11 @@ class SigBuilder:
                 return [('DATA', ptr[1], ln, esz, tu.loc(n))]
             if nm == 'resize' and obj is not None and len(args) >= 1:
                 p = self.path_of(obj, env)
-                v = self.length(args[0], env)
+                pre = []
+                v = self.length(args[0], env, pre)
                 if p is None or v is None:
                     raise Undecided('`%s` is not understood' % tu.show(n))
-                return [('RESIZE', p, v, tu.loc(n))]
+                return pre + [('RESIZE', p, v, tu.loc(n))]
             if nm in ('reserve', 'clear', 'shrink_to_fit') and obj is not None and self.path_of(obj, env) is not None:
                 if nm == 'clear':
                     return [('RESIZE', self.path_of(obj, env), Poly.const(0), tu.loc(n))]
